@@ -310,8 +310,8 @@ def run_job(job, acc):
                 if pr.returncode != 0 or not os.path.exists(dfa_p) or not os.path.exists(rx_p):
                     acc.violation(dict(base, sig='dump-not-written', observed=pr.stderr.decode('utf-8', 'replace')[:300]))
                     continue
-                dtext = open(dfa_p, encoding='utf-8', errors='replace').read()
-                rtext = open(rx_p, encoding='utf-8', errors='replace').read()
+                dtext = open(dfa_p, encoding='utf-8', errors='replace', newline='').read()
+                rtext = open(rx_p, encoding='utf-8', errors='replace', newline='').read()
                 if special or ans['dfa_min']['subs']:
                     acc.seen((text, shell))
                 acc.count('nested_automata', len(ans['dfa_min']['subs']))
@@ -344,8 +344,8 @@ def replay(w, acc):
         subprocess.run([paths.COMPLGEN, '--' + shell, os.devnull, '--dfa', dfa_p, '--regex', rx_p, '-'],
                        input=text.encode(), stdout=subprocess.PIPE, stderr=subprocess.PIPE)
         acc.evals += 1
-        p1 = check_dfa_dot(open(dfa_p).read(), ans['dfa_min'], BASE[shell])
-        p2 = check_regex_dot(open(rx_p).read(), ans['regex'])
+        p1 = check_dfa_dot(open(dfa_p, newline='').read(), ans['dfa_min'], BASE[shell])
+        p2 = check_regex_dot(open(rx_p, newline='').read(), ans['regex'])
         print('dfa problems', p1[:5])
         print('regex problems', p2[:5])
         if p1 or p2:
